@@ -52,7 +52,8 @@ Definition flag (b : bool) (code : Z) : list Z := if b then [] else [code].
 (* codes: 1 generator (not an isometry); 2 bookkeeping; 3 single outcome; 4 table;
    5 table keys; 6 norm; 7 state vector; 8 marginal; 9 reference table does not sum to 1;
    10 repaired coefficient-extraction formula differs from the reference (exact);
-   21 / 22 single / table differ from the reference but equal the formula as coded;
+   21 / 22 / 23 single / table / norm (= sum of the table) differ from the reference but equal
+   the formula as coded;
    31 rows handed to the probability routine are not aligned with the table keys *)
 Definition check_case (c : case) : list Z :=
   let o := c_obs c in
@@ -93,7 +94,12 @@ Definition check_case (c : case) : list Z :=
    | _ => [5]
    end) ++
   (match o_norm_st o with
-   | 0%Z => flag (close (match dct with [] => 1%Q | _ => qsum ref end) (o_norm o)) 6
+   | 0%Z => match dct with
+            | [] => flag (close 1%Q (o_norm o)) 6
+            | _ => (* norm of a post-selected state = sum of fock_probabilities *)
+                   if close (qsum ref) (o_norm o) then []
+                   else if ryser_table && close (qsum coded) (o_norm o) then [23] else [6]
+            end
    | 2%Z => []
    | _ => [6]
    end) ++
